@@ -89,7 +89,38 @@ func flipEach(b []byte, f func(mut []byte, pos int)) {
 func c17RoundTrip(c *vc.Ctx, batch int) {
 	n := c.Pick(60, 400)
 	r := world.NewRand(c.Seed, "c17", batch)
+	// what was handed out earlier (address string and data-output script, exactly the objects the builder returned) is
+	// checked again after later builder and verifier calls: an answer must not change once it has been given
+	type handedOut struct {
+		key         *relayertypes.PublicKey
+		magic, evm  []byte
+		addr        string
+		data, dataC []byte // the returned slice itself, and a copy taken at once
+	}
+	var kept []handedOut
+	recheck := func() {
+		for _, h := range kept {
+			c.Eval(1)
+			s1, _, err := scriptOfAddress(h.addr)
+			if err != nil {
+				continue
+			}
+			if !bytes.Equal(h.data, h.dataC) {
+				c.Violation("a data-output script handed out earlier changed after later calls", fmt.Sprintf("%x became %x", h.dataC, h.data), nil)
+			} else if err := bitcointypes.VerifyDespositScriptV1(h.key, h.magic, h.evm, s1, h.data); err != nil {
+				c.Violation("deposit verification refuses a v1 address/data output handed out earlier", fmt.Sprintf("%s %x: %v", h.addr, h.data, err), nil)
+			}
+			c.Count("earlier_answers_checked_again", 1)
+		}
+	}
+	defer recheck()
 	for k := 0; k < n; k++ {
+		if k%7 == 6 {
+			recheck()
+			if len(kept) > 12 {
+				kept = kept[len(kept)-6:]
+			}
+		}
 		schn := r.Intn(2) == 1
 		net := c17Nets[r.Intn(4)]
 		key := c17Key(c.Seed, batch*100000+k, schn)
@@ -166,6 +197,7 @@ func c17RoundTrip(c *vc.Ctx, batch int) {
 		if err := bitcointypes.VerifyDespositScriptV1(key, magic, evm, s1, data); err != nil {
 			viol("deposit verification refuses the v1 address/data output the node hands out", fmt.Sprintf("%s %x: %v", a1.EncodeAddress(), data, err))
 		}
+		kept = append(kept, handedOut{key: key, magic: append([]byte(nil), magic...), evm: append([]byte(nil), evm...), addr: a1.EncodeAddress(), data: data, dataC: append([]byte(nil), data...)})
 		if bitcointypes.VerifyDespositScriptV1(key2, magic, evm, s1, data) == nil {
 			viol("v1 deposit outputs accepted for another relayer key", "")
 		}
